@@ -289,6 +289,26 @@ Section MergeP.
     rewrite H. reflexivity.
   Qed.
 
+  (* when the comparison decides equality of schemas (every attribute of every element), verification rejects exactly
+     the lists in which some file's schema is not the first file's *)
+  Theorem verify_rejects_iff basepath rel pf0 rest :
+    (forall a b, reflect (a = b) (seqb a b)) ->
+    (legacy_merge true basepath rel (pf0 :: rest) = MValueError S X
+     <-> exists pf, In pf rest /\ pf_schema S X pf <> pf_schema S X pf0).
+  Proof.
+    intros Hr. split.
+    - unfold Merge.legacy_merge. cbn [andb].
+      destruct (forallb (fun pf => seqb (pf_schema S X pf) (pf_schema S X pf0)) rest) eqn:E.
+      + cbn [negb]. destruct (all_some _); discriminate.
+      + intros _. assert (Hex : existsb (fun pf => negb (seqb (pf_schema S X pf) (pf_schema S X pf0))) rest = true).
+        { clear - E. induction rest as [|p r IH]; cbn in *; [discriminate|].
+          destruct (seqb (pf_schema S X p) (pf_schema S X pf0)); cbn in *; [now apply IH|reflexivity]. }
+        apply existsb_exists in Hex. destruct Hex as [pf [Hin Hn]]. exists pf. split; [exact Hin|].
+        destruct (Hr (pf_schema S X pf) (pf_schema S X pf0)); [discriminate|assumption].
+    - intros [pf [Hin Hne]]. apply verify_rejects. exists pf. split; [exact Hin|].
+      destruct (Hr (pf_schema S X pf) (pf_schema S X pf0)); [contradiction|reflexivity].
+  Qed.
+
   Theorem verify_always_legacy fs pfs : is_legacy S X true fs pfs = true.
   Proof. reflexivity. Qed.
 
@@ -392,5 +412,19 @@ Section MergeQ.
       + exists sch', rgs, n. split; [reflexivity|exact E2].
     - exfalso. unfold analyse_paths in Ea. destruct file_list; [congruence|discriminate].
     - exfalso. unfold analyse_paths in Ea. destruct (map parts_of file_list); discriminate.
+  Qed.
+
+  (* a list whose first element is a multi-file dataset (hive/drill sub-datasets) always takes the legacy path:
+     with and without an fsspec filesystem metadata_from_many returns the same *)
+  Theorem subdatasets_always_legacy (file_list : list str) (pf0 : pfile S X) rest verify fs root :
+    pf_simple S X pf0 = false ->
+    is_legacy S X verify fs (pf0 :: rest) = true /\
+    metadata_from_many S seqb slen X file_list (pf0 :: rest) verify fs root
+    = metadata_from_many S seqb slen X file_list (pf0 :: rest) verify false root.
+  Proof.
+    intros H.
+    assert (E : forall f, is_legacy S X verify f (pf0 :: rest) = true).
+    { intros f. unfold is_legacy. rewrite H. cbn [negb]. now rewrite orb_true_r. }
+    split; [apply E|]. unfold metadata_from_many. now rewrite !E.
   Qed.
 End MergeQ.
